@@ -116,6 +116,12 @@ def sensitivity(names, quiet=False, runs=None):
     if names:
         entries = [e for e in entries if e["name"] in names or any(p in names for p in e["props"])]
     bad = 0
+    res_path = os.path.join(env.VERIF_DIR, "selftest", "quiet_results.json" if quiet else "sensitivity_results.json")
+    try:
+        with open(res_path) as f:
+            results = json.load(f)
+    except FileNotFoundError:
+        results = {}
     for e in entries:
         try:
             d = make_copy(e["patches"])
@@ -136,6 +142,7 @@ def sensitivity(names, quiet=False, runs=None):
                 if quiet:
                     ok = rc == 0
                     print(f"quiet {e['name']} {prop}: rc={rc} -> {'OK (silent)' if ok else 'FALSE ALARM'}")
+                    results.setdefault(e["name"], {})[prop] = {"silent": ok}
                 else:
                     ok = rc == 1
                     first = lines[1].strip() if len(lines) > 1 else (lines[0] if lines else "")
@@ -153,12 +160,16 @@ def sensitivity(names, quiet=False, runs=None):
                             ok = False
                             replay_note += " REPLAY-MISMATCH"
                     print(f"sensitivity {e['name']} {prop}: rc={rc} -> {'DETECTED' if ok else 'MISSED'}{replay_note} {first[:110]}")
+                    oracles = sorted({ln.strip().split()[0].split("=")[1] for ln in lines if ln.strip().startswith("oracle=")})
+                    results.setdefault(e["name"], {})[prop] = {"detected": ok, "oracles": oracles, "runs": runs, "replay": replay_note.strip()}
                 if not ok:
                     bad += 1
                     if rc == 2:
                         print(out[-1500:], err[-1500:])
         finally:
             shutil.rmtree(d, ignore_errors=True)
+        with open(res_path, "w") as f:
+            json.dump(results, f, indent=1, sort_keys=True)
     return 1 if bad else 0
 
 
@@ -176,23 +187,24 @@ def suite(names, jobs=4):
     except FileNotFoundError:
         results = {}
 
+    sys.path.insert(0, os.path.join(env.VERIF_DIR, "tools"))
+    import suite as suite_mod
+
     def one(e):
         d = make_copy(e["patches"])
         try:
             shutil.copytree(os.path.join(env.REPO, "tests"), os.path.join(d, "tests"), ignore=shutil.ignore_patterns("__pycache__"))
             shutil.copy(os.path.join(env.REPO, "pyproject.toml"), d)
-            en = dict(os.environ, PYTHONPATH=d, PYTHONDONTWRITEBYTECODE="1")
-            p = subprocess.run(["/venv/bin/python", "-m", "pytest", "-q", "-p", "no:cacheprovider", "--timeout=900", "--continue-on-collection-errors", "-o", "addopts="], cwd=d, env=en, capture_output=True, text=True, timeout=3000)
-            tail = p.stdout.strip().splitlines()[-1] if p.stdout.strip() else p.stderr[-200:]
-            return e["name"], tail
+            missing, tail, n = suite_mod.run(d)
+            return e["name"], (missing, tail)
         finally:
             shutil.rmtree(d, ignore_errors=True)
 
     with cf.ThreadPoolExecutor(max_workers=jobs) as ex:
-        for name, tail in ex.map(one, entries):
-            passed = "215 passed" in tail and "failed" not in tail
-            results[name] = {"suite_passes": passed, "summary": tail}
-            print(f"suite {name}: {'PASSES (survives the tests)' if passed else 'caught by the tests'}  [{tail}]")
+        for name, (missing, tail) in ex.map(one, entries):
+            passed = not missing
+            results[name] = {"suite_passes": passed, "summary": tail, "pinned_tests_failing": missing[:5]}
+            print(f"suite {name}: {'PASSES (survives the tests)' if passed else f'caught by {len(missing)} pinned test(s)'}  [{tail}]")
             with open(out_path, "w") as f:
                 json.dump(results, f, indent=1, sort_keys=True)
     return 0
